@@ -78,7 +78,8 @@ pub struct Harness {
   /// bytes of fresh space left when the threads start (0 = use shape bit2)
   #[serde(default)]
   pub leave: u32,
-  /// extra bytes allocated first so that the cursor starts at an odd residue
+  /// extra bytes allocated first, so that the blocks sit at odd offsets; with `leave` > 0 the cursor itself
+  /// starts at this residue mod 8
   #[serde(default)]
   pub odd: u8,
 }
@@ -967,7 +968,9 @@ pub fn run_one(h: &Harness, prefix: &[u8], o: &ExecOpts) -> ExecOut {
   let c_size = if h.shape & 8 != 0 { 56 } else { 40 };
   let sizes = [40u32, 40, c_size, 24, 24];
   let tail_mode = h.shape & 32 != 0;
-  let leave_amt = |remaining: u32| if h.leave > 0 { h.leave.min(remaining) } else if h.shape & 4 != 0 { 24 } else { 0 };
+  // `odd` also puts the cursor itself at that residue (the capacity is a multiple of 8 in the unified layout):
+  // the fresh space left is `leave` plus the bytes up to the next multiple of 8
+  let leave_amt = |remaining: u32| if h.leave > 0 { (h.leave + (8 - h.odd as u32 % 8) % 8).min(remaining) } else if h.shape & 4 != 0 { 24 } else { 0 };
   let mut blocks = vec![];
   let mut dm = (0, 0, 0, 0);
   if tail_mode {
